@@ -1,7 +1,7 @@
 """C02 - opening a plotfile exposes exactly the metadata its headers state."""
 import os, shutil
 import numpy as np
-from .. import plotgen, oracle, leanio
+from .. import plotgen, oracle, leanio, writers
 from ..common import quiet
 from .c01 import dedup_names
 
@@ -161,6 +161,13 @@ def run_spec(ctx, rep, spec, model, only=None):
             rep.fail(b, {"spec": spec, "mode": mode})
     if model and only is None:
         model_compare(rep, spec, path, H, [None] + list(range(finest + 2)))
+        # is this header exactly a text of the Lean renderer with the theorem's hypothesis satisfied?  Then
+        # `C02.global_header_parse_render` / `_limit` / `_limit_above` speak about this very file
+        why = writers.global_header_theorem_applies(path, leanio)
+        if why:
+            rep.tie(f"generated header: {why}", {"spec": spec, "mode": {"limit": None}, "model": "header"})
+        else:
+            rep.agree(); rep.count("header-theorem-applies")
 
 
 def run(ctx, rep, model=True):
